@@ -65,7 +65,13 @@ impl<'a> Gen<'a> {
 
     pub fn op_create_pool(&mut self) {
         let stable = self.r.chance(1, 2);
-        let p = gen_pool_hist(self.r, stable);
+        let mut p = gen_pool_hist(self.r, stable);
+        // a repeated asset, adjacent or not (must be refused)
+        if self.r.chance(1, 7) {
+            let n = p.asset_denoms.len() as u64;
+            let (i, j) = if n >= 3 && self.r.chance(2, 3) { (0usize, (2 + self.r.below(n - 2)) as usize) } else { (self.r.below(n) as usize, self.r.below(n) as usize) };
+            if i != j { p.asset_denoms[j] = p.asset_denoms[i].clone(); }
+        }
         let mut funds = self.creation_funds();
         match self.r.below(30) {
             0 => { funds.pop(); }
@@ -695,6 +701,56 @@ pub fn run_auth(o: &mut Out) {
                     }
                 }
             }
+        }
+    }
+    run_auth_fp(o, id);
+}
+
+/// second half of the `auth` stream (C15): farm- and position-level authority.  Fresh deployment with a
+/// pool, a farm owned by u1 and a position owned by u2; every (variant, sender role) pair is tried once.
+pub fn run_auth_fp(o: &mut Out, first_id: u64) {
+    let senders = ["owner", "u1", "u2", "u3", "pm", "fm"];
+    let variants = ["expandfarm", "closefarm", "createpos_for", "expandpos", "closepos", "closepart", "withdraw", "emergency"];
+    let lp = "factory/pm/o.a1.LP";
+    let mut id = first_id;
+    for v in variants.iter() {
+        for sender in senders.iter() {
+            let mut run = crate::streams::hist::Runner::new(WorldCfg::default());
+            o.raw(&format!("begin {}", id));
+            id += 1;
+            let il = run.h.init_line();
+            o.line(&il, "ok");
+            run.first_snap(o);
+            run.step("tx u1 2 uom 1000 uusd 1000 pm create cp 0 2 uom 6 uusd 6 1000000000000000 2000000000000000 0 - a1", o);
+            run.step("tx u2 2 uom 5000000 uusd 5000000 pm provide o.a1 - - - - -", o);
+            run.step(&format!("tx u2 1 {} 100000 fm createpos p1 86400 -", lp), o);
+            run.step(&format!("tx u1 2 uom 1000 uusdc 14000 fm createfarm {} - - uusdc 14000 f1", lp), o);
+            let farms = run.h.all_farms();
+            let positions = run.h.all_positions();
+            if farms.len() != 1 || positions.len() != 1 { o.raw("end"); continue; }
+            let fid = farms[0].identifier.clone();
+            let pid = positions[0].identifier.clone();
+            // the sender gets what the message needs
+            if *sender != "u2" && matches!(*v, "createpos_for" | "expandpos") { run.step(&format!("send u2 {} 1 {} 1000", sender, lp), o); }
+            if matches!(*sender, "pm" | "fm") && *v == "expandfarm" { run.step(&format!("send u2 {} 1 uusdc 14000", sender), o); }
+            if *v == "withdraw" {
+                run.step(&format!("tx u2 0 fm closepos {} - -", pid), o);
+                run.step("advance 90000000000000", o);
+            }
+            let line = match *v {
+                "expandfarm" => format!("tx {} 1 uusdc 14000 fm expandfarm {} - - uusdc 14000 {}", sender, lp, fid),
+                "closefarm" => format!("tx {} 0 fm closefarm {}", sender, fid),
+                "createpos_for" => format!("tx {} 1 {} 1000 fm createpos n1 86400 u2", sender, lp),
+                "expandpos" => format!("tx {} 1 {} 1000 fm expandpos {}", sender, lp, pid),
+                "closepos" => format!("tx {} 0 fm closepos {} - -", sender, pid),
+                "closepart" => format!("tx {} 0 fm closepos {} {} 1000", sender, pid, lp),
+                "withdraw" => format!("tx {} 0 fm withdrawpos {} -", sender, pid),
+                _ => format!("tx {} 0 fm withdrawpos {} true", sender, pid),
+            };
+            let res = run.step(&line, o);
+            o.line(&format!("mon_auth_fp {} {} {} {} {} {}", v, (res == "ok") as u8, (*sender == "owner") as u8, (*sender == "u1") as u8,
+                (*sender == "u2") as u8, (*sender == "pm") as u8), "ok");
+            o.raw("end");
         }
     }
 }
